@@ -50,4 +50,22 @@ var specs = map[string]checkSpec{
 		Stubs: commonStubs,
 		Assume: commonAssume,
 	},
+	"C06": {
+		Level: "exploration",
+		Quick: budget{Runs: 1500, Chunk: 100},
+		Thor:  budget{Seconds: 900, Chunk: 300},
+		Rule:  "Trees of depth <= 4 (up to ~12 actors, each with an event-stream subscription and a Loop job), 1-2 watcher actors registering 1-4 watches through by-path references before or racing the kills, 1-3 kills (poison or immediate, from outside goroutines or from actors, optionally repeated, optionally racing an ActorOf inside the victim) issued concurrently. Oracles over the recorded history at quiescence: every descendant terminated, exactly one ActorKilledEvent per actor and never before a descendant's, exactly one OnKilled at the parent and at every watcher registered before termination, FindActor fails, the name is reusable, events published afterwards are neither delivered to nor dead-lettered for the dead actors, no scheduled message fires after termination.",
+		Real:  commonReal,
+		Stubs: commonStubs,
+		Assume: commonAssume,
+	},
+	"C19": {
+		Level: "exploration",
+		Quick: budget{Runs: 1500, Chunk: 100},
+		Thor:  budget{Seconds: 900, Chunk: 300},
+		Rule:  "2-5 subscriber actors (children of a restarting supervisor), 1-3 publisher actors plus outside goroutines publishing directly, 3 event types, 6-35 drawn operations (Subscribe - also repeated -, Unsubscribe, UnsubscribeAll, Publish of uniquely numbered events, kill and restart of subscribers) issued by 1-3 concurrent drivers; every operation's invoke/return is stamped with the global event sequence number. Oracles: no duplicate delivery, per-publisher order per subscriber, nothing sent to a subscriber after its ActorKilledEvent, the whole history linearizable (porcupine, histories <= 45 ops) against the model 'state = set of (subscriber,type); Publish returns the holders of its type', and no table entry left for a terminated subscriber (accessor).",
+		Real:  commonReal,
+		Stubs: commonStubs,
+		Assume: append([]string{"porcupine v1.3.0 linearizability checker; Unknown (time-out) results are counted, not reported"}, commonAssume...),
+	},
 }
